@@ -92,6 +92,28 @@ def check_cmp(acc, Time, a, b):
         acc.count("cmp_equal_remainder")
 
 
+class _H(object):
+    pass
+
+
+def check_heap_order(acc, Time, a, b):
+    """The C heap must order two times exactly like the exact rational order (it compares quotient, then remainder)."""
+    from jellyfysh.scheduler.heap_scheduler import HeapScheduler
+    ha, hb = _H(), _H()
+    for first in (0, 1):
+        s = HeapScheduler()
+        for t, h in ((a, ha), (b, hb)) if first == 0 else ((b, hb), (a, ha)):
+            s.push_event(Time(*t), h)
+        got = s.get_succeeding_event()
+        ea, eb = _exact(*a), _exact(*b)
+        acc.count("heap_order_checks")
+        if ea != eb and (got is ha) != (ea < eb):
+            acc.violation("C14:heap-order-disagrees-with-exact-order",
+                          f"heap scheduler returns the event at Time{b if got is hb else a} before Time{a if got is hb else b}",
+                          {"op": "heap", "a": [x.hex() for x in a], "b": [x.hex() for x in b]})
+            return
+
+
 def check_sub(acc, Time, a, b):
     d = Time(*a) - Time(*b)
     exact = _exact(*a) - _exact(*b)
@@ -176,6 +198,13 @@ def shard(acc, prop="C14", seed=0, shard=0, n=1000):
         if not math.isinf(a[0]) and not math.isinf(b[0]):
             acc.count("sub_checked")
             check_sub(acc, Time, a, b)
+            if _ % 4 == 0:
+                # near-coincident times at a large common quotient: below the resolution of quotient + remainder as one float
+                if rng.random() < 0.5:
+                    q = float(rng.choice([2 ** 20, 2 ** 30, 2 ** 40, 2 ** 52 - 5]))
+                    r = gen.rand_bits_unit(rng) * 0.9
+                    a, b = (q, r), (q, r + rng.choice([2.0 ** -40, 2.0 ** -50, 1e-12, 1e-9]))
+                check_heap_order(acc, Time, a, b)
 
 
 def main(ctx):
@@ -196,6 +225,7 @@ def main(ctx):
     ctx.require("cmp_ties", 50)
     ctx.require("cmp_equal_quotient", 50)
     ctx.require("inf_checked", 100)
+    ctx.require("heap_order_checks", 10000)
 
 
 def replay(acc, w):
@@ -210,6 +240,8 @@ def replay(acc, w):
         check_cmp(acc, Time, tuple(map(fh, x["a"])), tuple(map(fh, x["b"])))
     elif x["op"] == "sub":
         check_sub(acc, Time, tuple(map(fh, x["a"])), tuple(map(fh, x["b"])))
+    elif x["op"] == "heap":
+        check_heap_order(acc, Time, tuple(map(fh, x["a"])), tuple(map(fh, x["b"])))
     elif x["op"] == "from_float":
         check_from_float(acc, Time, fh(x["x"]))
     elif x["op"] == "mono":
